@@ -1,8 +1,8 @@
 /- driver handler of the `amqp` stream (line protocol, see Main.lean)
 
-amqp consumer <transport> <env> <address>      -> ok {"ops":[…],"queue":…} | err parse|noExchange | unsupported
-amqp producer <transport> <env> <address>      -> ok {"ops":[…],"exchange":…,"subject":…} | err parse | unsupported
-amqp send     <transport> <target> <message>   -> ok {"frame":…,"delivered":…} | unsupported
+amqp consumer <transport> <env> <address> <capacity|null> -> ok {"ops":[…],"queue":…,"creates":[…]} | err parse|noExchange | unsupported
+amqp producer <transport> <env> <address>      -> ok {"ops":[…],"exchange":…,"subject":…,"creates":[…]} | err parse | unsupported
+amqp send     <transport> <target+queues> <message> -> ok {"frame":…,"delivered":…,"is_returned":…,"returned":…} | unsupported
 amqp clamp    <expiry>                         -> ok <text|null> | unsupported
 amqp ack      <transport> <unacked> <tag> <multiple> -> ok <unacked'>
 amqp names    <queue name> <queue type> <instance id> -> ok {names and address strings of the engine}
@@ -18,17 +18,48 @@ def s (x : String) : Str := x.toList
 def jstr (x : Str) : Json := .str x
 def o (kvs : List (String × Json)) : Json := .obj (kvs.map (fun kv => (kv.1.toList, kv.2)))
 
-def opJson : Op → Json
-  | .exchangeDeclare e t p d a g =>
-    o [("op", .str (s "exchange_declare")), ("exchange", e), ("type", t), ("passive", p), ("durable", d),
-       ("auto_delete", a), ("arguments", g)]
+def chanJson : Channel → Json
+  | .session => .str (s "session")
+  | .temp => .str (s "temp")
+
+/-- every frame with every argument the client library sends (pika's defaults written out) -/
+def opJson (op : Op) : Json :=
+  let ch := ("channel", chanJson op.channel)
+  match op with
+  | .probe e =>
+    o [("op", .str (s "exchange_declare")), ch, ("exchange", .str e), ("type", .str (s "direct")), ("passive", .bool true),
+       ("durable", .bool false), ("auto_delete", .bool false), ("internal", .bool false), ("arguments", .null)]
+  | .qos n =>
+    o [("op", .str (s "qos")), ch, ("prefetch_size", .num 0), ("prefetch_count", .num n), ("global_qos", .bool false)]
+  | .exchangeDeclare e t p d a i g =>
+    o [("op", .str (s "exchange_declare")), ch, ("exchange", e), ("type", t), ("passive", p), ("durable", d),
+       ("auto_delete", a), ("internal", i), ("arguments", g)]
   | .queueDeclare q p d x a g =>
-    o [("op", .str (s "queue_declare")), ("queue", q), ("passive", p), ("durable", d), ("exclusive", x),
+    o [("op", .str (s "queue_declare")), ch, ("queue", q), ("passive", p), ("durable", d), ("exclusive", x),
        ("auto_delete", a), ("arguments", g)]
   | .queueBind q e k g =>
-    o [("op", .str (s "queue_bind")), ("queue", q), ("exchange", e), ("key", k), ("arguments", g)]
-  | .consume q x g =>
-    o [("op", .str (s "consume")), ("queue", q), ("exclusive", x), ("arguments", g)]
+    o [("op", .str (s "queue_bind")), ch, ("queue", q), ("exchange", e), ("key", k), ("arguments", g)]
+  | .consume q k x g =>
+    o [("op", .str (s "consume")), ch, ("queue", q), ("auto_ack", k), ("exclusive", x), ("consumer_tag", .null),
+       ("arguments", g)]
+
+def entityJson : Entity → Json
+  | .exchange n t d a i g =>
+    o [("entity", .str (s "exchange")), ("exchange", n), ("type", t), ("durable", d), ("auto_delete", a), ("internal", i),
+       ("arguments", g)]
+  | .queue n d x a g =>
+    o [("entity", .str (s "queue")), ("queue", n), ("durable", d), ("exclusive", x), ("auto_delete", a), ("arguments", g)]
+  | .binding q e k g =>
+    o [("entity", .str (s "binding")), ("queue", q), ("exchange", e), ("key", k), ("arguments", g)]
+  | .subscription q k x g =>
+    o [("entity", .str (s "subscription")), ("queue", q), ("auto_ack", k), ("exclusive", x), ("arguments", g)]
+
+/-- the optional capacity field of `amqp consumer`: `null` or a natural number -/
+def rdCap (t : String) : Option (Option Nat) :=
+  match rd t with
+  | some .null => some none
+  | some (.num n) => if n < 0 then none else some (some n.toNat)
+  | _ => none
 
 def rdTransport : String → Option Transport
   | "asyncio" => some .asyncio
@@ -90,11 +121,23 @@ def optStrJson : Option Str → Json
 
 def g (kvs : Dict) (k : String) : Json := (objGet kvs (s k)).getD .null
 
+/-- a field left out of the case is left to the `Message` constructor's default (the structure's) -/
+def optBool (dflt : Bool) : Json → Option Bool
+  | .bool b => some b
+  | .null => some dflt
+  | _ => none
+
 def rdMsg (j : Json) : Option Msg :=
   match j with
   | .obj kvs =>
-    match g kvs "body", g kvs "properties", g kvs "durable", g kvs "mandatory", rdExpiry (g kvs "expiration") with
-    | .str body, .obj props, .bool dur, .bool man, some ex =>
+    let d : Msg := { properties := [] }
+    let body : Option Str := match g kvs "body" with
+      | .str b => some b
+      | .null => some d.body
+      | _ => none
+    match body, g kvs "properties", optBool d.durable (g kvs "durable"), optBool d.mandatory (g kvs "mandatory"),
+        rdExpiry (g kvs "expiration") with
+    | some body, .obj props, some dur, some man, some ex =>
       let m : Msg := { body := body, properties := props, contentType := g kvs "content_type",
                        contentEncoding := g kvs "content_encoding", durable := dur, mandatory := man,
                        priority := g kvs "priority", correlationId := g kvs "correlation_id",
@@ -187,21 +230,22 @@ def rdQType : String → Option QType
   | _ => none
 
 def handle : List String → String
-  | ["consumer", t, env, addr] =>
-    match rdTransport t, rdEnv env, rd addr with
-    | some tr, some e, some (.str a) =>
+  | ["consumer", t, env, addr, cap] =>
+    match rdTransport t, rdEnv env, rd addr, rdCap cap with
+    | some tr, some e, some (.str a), some c =>
       if !ascii a then "unsupported" else
-      match consumerOps tr e a with
-      | .ok (ops, q) => "ok\t" ++ js (o [("ops", .arr (ops.map opJson)), ("queue", .str q)])
+      match consumerOps tr e a c with
+      | .ok (ops, q) => "ok\t" ++ js (o [("ops", .arr (ops.map opJson)), ("queue", .str q),
+                                          ("creates", .arr ((created ops).map entityJson))])
       | .error er => showErr er
-    | _, _, _ => "unsupported"
+    | _, _, _, _ => "unsupported"
   | ["producer", t, env, addr] =>
     match rdTransport t, rdEnv env, rd addr with
     | some tr, some e, some (.str a) =>
       if !ascii a then "unsupported" else
       match producerOps tr e a with
       | .ok (ops, tg) => "ok\t" ++ js (o [("ops", .arr (ops.map opJson)), ("exchange", .str tg.exchange),
-                                           ("subject", .str tg.subject)])
+                                           ("subject", .str tg.subject), ("creates", .arr ((created ops).map entityJson))])
       | .error er => showErr er
     | _, _, _ => "unsupported"
   | ["send", t, tgt, msg] =>
@@ -211,7 +255,11 @@ def handle : List String → String
       | .str ex, .str su =>
         if !exactExpiry m.expiration then "unsupported" else
         let f := send tr ⟨ex, su⟩ m
-        "ok\t" ++ js (o [("frame", frameJson f), ("delivered", msgJson (deliver tr f 1 false))])
+        let qs : List Str := match g tk "queues" with
+          | .arr xs => (strList xs).getD []
+          | _ => []
+        "ok\t" ++ js (o [("frame", frameJson f), ("delivered", msgJson (deliver tr f 1 false)),
+                         ("is_returned", .bool (isReturned qs f)), ("returned", msgJson (returned tr f))])
       | _, _ => "unsupported"
     | _, _, _ => "unsupported"
   | ["clamp", e] =>
